@@ -665,6 +665,18 @@ func (fx *fctx) execLoop(st *State, s ast.Stmt, cond func(*State) *Term, body fu
 			return false
 		})
 	}
+	// a counter that is initialised by the for clause, tested with `i < E`, incremented by the post statement
+	// and not assigned in the body never goes below its initial value (no wrap: the increment runs only when
+	// i < E): a syntactic loop fact, so that zero-annotation functions get their index lower bounds
+	if fs, ok := s.(*ast.ForStmt); ok {
+		if v := fx.monotoneCounter(fs); v != nil {
+			if pv, ok1 := pre.vars[v]; ok1 && pv.Tm != nil {
+				if hv, ok2 := h.vars[v]; ok2 && hv.Tm != nil && hv.Tm.Sort == SInt {
+					h.assume(ts.Ge(hv.Tm, pv.Tm))
+				}
+			}
+		}
+	}
 	// re-assume type facts for havocked slices relative to new alloc done in havocValue
 	if lc != nil {
 		for _, cl := range lc.Invariants {
@@ -1073,4 +1085,43 @@ func (fx *fctx) mapValsFact(st *State, x ast.Expr, v *Value) *Term {
 		}
 	}
 	return nil
+}
+
+// monotoneCounter: the variable of `for i := X; i < E; i++ { body }` when the body never assigns i.
+func (fx *fctx) monotoneCounter(fs *ast.ForStmt) *types.Var {
+	info := fx.e.P.Info
+	as, ok := fs.Init.(*ast.AssignStmt)
+	if !ok || len(as.Lhs) != 1 || len(as.Rhs) != 1 {
+		return nil
+	}
+	id, ok := as.Lhs[0].(*ast.Ident)
+	if !ok {
+		return nil
+	}
+	obj := info.Defs[id]
+	if obj == nil {
+		obj = info.Uses[id]
+	}
+	v, ok := obj.(*types.Var)
+	if !ok || fx.boxed[v] {
+		return nil
+	}
+	be, ok := fs.Cond.(*ast.BinaryExpr)
+	if !ok || be.Op != token.LSS {
+		return nil
+	}
+	if cid, ok := be.X.(*ast.Ident); !ok || info.Uses[cid] != v {
+		return nil
+	}
+	inc, ok := fs.Post.(*ast.IncDecStmt)
+	if !ok || inc.Tok != token.INC {
+		return nil
+	}
+	if pid, ok := inc.X.(*ast.Ident); !ok || info.Uses[pid] != v {
+		return nil
+	}
+	if fx.assignedIn([]ast.Node{fs.Body})[v] {
+		return nil
+	}
+	return v
 }
